@@ -17,6 +17,9 @@ interleaving, the index statement for every sequential history (`C07_hub_exact`)
 session, and `SetID` touches the index only for a session in Preparing / Ok.
 -/
 import Teleport.Lemmas.Lifecycle
+import Teleport.Model.Redial
+import Teleport.Lemmas.SrcFlow
+import Teleport.Gen.Transitions
 namespace Teleport
 namespace C07
 open Lifecycle
@@ -295,6 +298,259 @@ theorem C07_hub_takeover_schedule :
     decide
   obtain ⟨w, hw, h⟩ := this
   exact ⟨w, reach_of_run hw, h⟩
+
+/-! ## tie A — the machine as it is in the source NOW (`Gen/Transitions`)
+
+`srcfacts` regenerates the status constants, every status store / compare-and-swap with its
+enclosing function, and the ordered flows of `closeLocked`, `readDisconnected`, `write` …
+The theorems below compare them with `Model/Lifecycle` by RUNNING the model: the statuses a
+compare-and-swap may leave are read off `lstep`, the order of the close and disconnect paths is
+the order in which `lstep` enables the closer's / reader's steps, the refusal table of `write`
+is the model's `write`. Only the Go spelling of the eight status names is restated by hand. -/
+
+section TieA
+open SrcFlow
+
+def allStatus : List Status :=
+  [.preparing, .ok, .activeClosing, .activeClosed, .passiveClosing, .passiveClosed, .redialing, .redialFailed]
+
+/-- Go name of the constant. -/
+def goName : Status → String
+  | .preparing => "statusPreparing" | .ok => "statusOk" | .activeClosing => "statusActiveClosing"
+  | .activeClosed => "statusActiveClosed" | .passiveClosing => "statusPassiveClosing"
+  | .passiveClosed => "statusPassiveClosed" | .redialing => "statusRedialing" | .redialFailed => "statusRedialFailed"
+
+def commaJoin : List String → String
+  | [] => ""
+  | [a] => a
+  | a :: r => a ++ "," ++ commaJoin r
+
+/-- name of a `tryChangeStatus(to, from…)` site. -/
+def casName (to : Status) (frm : List Status) : String := goName to ++ "<-" ++ commaJoin (frm.map goName)
+
+/-- **The status constants and their order are the model's (tie A).** The `iota` block of session.go
+    declares exactly the eight constructors of `Lifecycle.Status`, in constructor order, so that the
+    `int32` value of each constant is `Status.code` (what the harness observes through `VerifStatus`
+    and what `Model/Redial`, `Model/Auth`, `Model/Graceful` assume too). Inserting, removing or
+    reordering a constant changes the regenerated list and this theorem no longer checks. -/
+theorem C07_status_order :
+    Gen.transitions_missing = [] ∧
+    Gen.status_consts = allStatus.map goName ∧
+    allStatus.all (fun s => Gen.status_consts[s.code]? == some (goName s)) = true ∧
+    allStatus.map Status.code = List.range Gen.status_consts.length ∧
+    (allStatus.map fun s => (Redial.Status.code <$> [Redial.Status.preparing, .ok, .activeClosing, .activeClosed,
+      .passiveClosing, .passiveClosed, .redialing, .redialFailed][s.code]?)) = allStatus.map fun s => some s.code := by
+  decide
+
+/-- a session core in status `st` with its threads at the given positions. -/
+def coreAt (st : Status) (ph : Phase) (closer : CPc) (reader : RPc) (rst : Status) : Core :=
+  { Core.init with st := st, ph := ph, closer := closer, reader := reader, rst := rst }
+
+/-- the statuses from which the model's step `e` moves the session to `to`. -/
+def fromSet (mk : Status → Core) (e : LEv) (to : Status) : List Status :=
+  allStatus.filter fun s => s != to && ((lstep (mk s) e).map (·.st) == some to)
+
+/-- the model's step `e` stores `to` whatever the status was: a blind store. -/
+def blindStore (mk : Status → Core) (e : LEv) (to : Status) : Bool :=
+  allStatus.all fun s => (lstep (mk s) e).map (·.st) == some to
+
+/-- (function, name) of the sites of one kind. -/
+def sitesOf (kind : String) : List (String × String) :=
+  (Gen.status_sites.filter fun r => r.2.1 == kind).map fun r => (r.1, r.2.2.1)
+
+def closeFrom : List Status := [.ok, .preparing]
+def redialFrom : List Status := [.ok, .passiveClosing, .passiveClosed, .redialFailed]
+def discReturnArm : List Status := [.passiveClosed, .activeClosed, .passiveClosing]
+def discDefaultArm : List Status := allStatus.filter fun s => !discReturnArm.contains s && s != .activeClosing
+
+def redialAll : List Redial.Status :=
+  [.preparing, .ok, .activeClosing, .activeClosed, .passiveClosing, .passiveClosed, .redialing, .redialFailed]
+
+/-- **No blind status store outside the lock; the compare-and-swap sites are the model's guards
+    (tie A).** In the root package as it is now:
+    (1) the status word is written only through `changeStatus` / `tryChangeStatus` (no raw atomic
+    access outside the four accessors);
+    (2) the blind stores (`changeStatus`) are exactly: `ActiveClosed` in `closeLocked`; `Preparing`,
+    `Redialing`, `Ok` in the redial literal of `Dial`; `PassiveClosed` in `readDisconnected`. `closeLocked`
+    is called only by `Close` — after `s.lock.Lock()`, released by `defer` — and by the redial literal;
+    the redial literal is installed in one place (`sess.redialForClientLocked = …` in `Dial`) and called
+    only by `redialForClient` under the same lock: so the first two groups run with `s.lock` held
+    (the model's closer thread, and `Model/Redial.redialLocked`). The third is the model's `dClosed`:
+    it follows `readDisconnected`'s own successful compare-and-swap to `PassiveClosing`, and in the
+    model both `cStore` and `dClosed` store their value whatever the status is;
+    (3) the compare-and-swap sites are exactly: `closeLocked` ActiveClosing ← {Ok, Preparing} = the
+    statuses from which the model's `closeCall` moves to ActiveClosing; `ServeConn`, `Dial`, the accept
+    literal Ok ← {Preparing} = the model's `storeOk` (a session closed while its hooks ran is not
+    revived), each with the failing branch returning; `readDisconnected` PassiveClosing ← the status it
+    loaded, retried (`continue`) when it fails — the model's `dStore`: for a loaded status of the
+    default arm it succeeds iff the status is still the loaded one, else back to the load; the
+    `case` lists of its switch are the model's arms (return for PassiveClosed, ActiveClosed,
+    PassiveClosing; keep ActiveClosing); `redialForClient` Redialing ← `Model/Redial.casFrom`; the redial
+    literal RedialFailed ← {Redialing} = `Redial.casRedialFailed`.
+    Replacing a compare-and-swap by a blind store, widening a from-list or storing the status
+    somewhere else changes a regenerated fact and this theorem no longer checks. -/
+theorem C07_no_blind_store_outside_lock :
+    Gen.transitions_missing = [] ∧
+    sitesOf "rawstatus" = [] ∧ sitesOf "?" = [] ∧
+    sameSet (sitesOf "store")
+      [("session.closeLocked", goName .activeClosed), ("session.readDisconnected", goName .passiveClosed),
+       ("peer.Dial#redial", goName .preparing), ("peer.Dial#redial", goName .redialing), ("peer.Dial#redial", goName .ok)] = true ∧
+    Gen.lock_held_calls =
+      [("closeLocked", "peer.Dial#redial", "no-lock"), ("closeLocked", "session.Close", "lock-held"),
+       ("redialForClientLocked", "session.redialForClient", "lock-held")] ∧
+    count "assign:redialForClientLocked" (keys Gen.flow_peer_Dial) = 1 ∧
+    keys (mainFlow Gen.flow_session_Close) = ["lock:lock.Lock", "call:closeLocked"] ∧
+    before "lock:lock.Lock" ("cas:" ++ casName .redialing redialFrom) (keys (mainFlow Gen.flow_session_redialForClient)) = true ∧
+    before ("cas:" ++ casName .redialing redialFrom) "call:redialForClientLocked" (keys (mainFlow Gen.flow_session_redialForClient)) = true ∧
+    before ("cas:" ++ goName .passiveClosing ++ "<-status") "store:statusPassiveClosed" (keys (mainFlow Gen.flow_session_readDisconnected)) = true ∧
+    blindStore (fun s => coreAt s .running .store .idle .preparing) .cStore .activeClosed = true ∧
+    blindStore (fun s => coreAt s .running .idle .closed .ok) .dClosed .passiveClosed = true ∧
+    sameSet ((Gen.status_sites.filter fun r => r.2.1 == "cas").map fun r => (r.1, r.2.2.1, r.2.2.2))
+      [("session.closeLocked", casName .activeClosing closeFrom, "fail-return"),
+       ("peer.ServeConn", casName .ok [.preparing], "fail-return"),
+       ("peer.Dial", casName .ok [.preparing], "fail-return"),
+       ("peer.serveListener#accept", casName .ok [.preparing], "fail-return"),
+       ("session.readDisconnected", goName .passiveClosing ++ "<-status", "fail-continue"),
+       ("session.redialForClient", casName .redialing redialFrom, "ok-guard"),
+       ("peer.Dial#redial", casName .redialFailed [.redialing], "ignored")] = true ∧
+    sameSet closeFrom (fromSet (fun s => coreAt s .hooks .idle .idle .preparing) .closeCall .activeClosing) = true ∧
+    sameSet [Status.preparing] (fromSet (fun s => coreAt s .accepted .idle .idle .preparing) .storeOk .ok) = true ∧
+    -- readDisconnected: the switch arms and the compare-and-swap from the loaded status
+    sameSet ((sitesOf "case").filter (·.1 == "session.readDisconnected")).unzip.2
+      [commaJoin (discReturnArm.map goName), goName .activeClosing, "default"] = true ∧
+    sameSet discReturnArm (allStatus.filter fun r =>
+      (lstep (coreAt r .running .idle .loaded r) .dStore).map (·.reader) == some .done) = true ∧
+    (allStatus.filter fun r => (lstep (coreAt r .running .idle .loaded r) .dStore).map (fun c => (c.st, c.reader)) == some (r, .hubdel))
+      = [.activeClosing] ∧
+    discDefaultArm.all (fun r => allStatus.all fun s =>
+      (lstep (coreAt s .running .idle .loaded r) .dStore).map (fun c => (c.st, c.reader)) ==
+        some (if s == r then (.passiveClosing, .hubdel) else (s, .disc0))) = true ∧
+    -- the redial path: Model/Redial
+    sameSet (redialFrom.map Status.code) ((redialAll.filter Redial.casFrom).map Redial.Status.code) = true ∧
+    (redialAll.filter fun s => s != .redialFailed &&
+      (Redial.casRedialFailed { Redial.State.init 1 false with status := s }).status == .redialFailed) = [.redialing] := by
+  decide
+
+/-! ### the order of the close path and of the disconnect path -/
+
+def closerEvents : List LEv := [.cHubDel, .cNotify, .cCallWait, .cStore, .cSock, .cHook]
+def readerEvents : List LEv := [.dLoad, .dStore, .dHubDel, .dSock, .dClosed, .dNotify, .dHook]
+
+/-- the one step among `cands` that the model enables in `c` (none if zero or several are). -/
+def nextOf (cands : List LEv) (c : Core) : Option (LEv × Core) :=
+  match cands.filterMap fun e => (lstep c e).map fun c' => (e, c') with
+  | [x] => some x
+  | _ => none
+
+/-- the order in which the model enables the steps of one thread, run alone. -/
+def traceOf (cands : List LEv) : Nat → Core → List (LEv × Core)
+  | 0, _ => []
+  | n + 1, c =>
+    match nextOf cands c with
+    | some (e, c') => (e, c') :: traceOf cands n c'
+    | none => []
+
+/-- the source statement of a model step (`c` = the state after the step: a store is named after the
+    status it leaves). -/
+def stepKey : LEv × Core → String
+  | (.cHubDel, _) | (.dHubDel, _) => "call:sessHub.delete"
+  | (.cNotify, _) | (.dNotify, _) => "call:notifyClosed"
+  | (.cCallWait, _) => "wg:call.Wait"
+  | (.cStore, c) | (.dClosed, c) => "store:" ++ goName c.st
+  | (.cSock, _) | (.dSock, _) => "call:socket.Close"
+  | (.cHook, _) | (.dHook, _) => "stage:postDisconnect"
+  | (.dLoad, _) => "load:getStatus"
+  | (.dStore, _) => "cas:" ++ goName .passiveClosing ++ "<-status"
+  | _ => "?"
+
+/-- the closer after its compare-and-swap succeeded on an established session. -/
+def closerStart : Option Core := lstep (coreAt .ok .running .idle .loop .preparing) .closeCall
+def modelCloser : List String := ((closerStart.map (traceOf closerEvents 12)).getD []).map stepKey
+/-- the reader entering `readDisconnected` with the session in status `st`. -/
+def modelReader (st : Status) : List String :=
+  (traceOf readerEvents 12 (coreAt st .running .idle .disc0 .preparing)).map stepKey
+
+/-- the lifecycle statements of a flow: the function's own statements without `case` / `cmp` markers. -/
+def lifeKeys (f : List SrcFlow.Ev) : List String := keys ((mainFlow f).filter fun e => e.kind != "case" && e.kind != "cmp")
+
+/-- what `Model/Lifecycle` abstracts from on these paths: the wait for running handlers (C08's model),
+    the redial attempt (C13's model: without a redial function it returns false at once). -/
+def abstracted : List String := ["wg:ctx.Wait", "call:redialForClient"]
+
+def isAcReturn (e : SrcFlow.Ev) : Bool := e.kind == "return" && e.guards == ["status == statusActiveClosing"]
+
+/-- **The close path and the disconnect path run in the model's order (tie A).**
+    `closeLocked` as it is now: compare-and-swap to ActiveClosing (failing branch returns), then — all
+    unconditional — `sessHub.delete(id, s)`, `notifyClosed`, wait for the handler contexts, wait for
+    the pending calls, store ActiveClosed, `socket.Close`, `postDisconnect`: with the context wait
+    (which `Model/Lifecycle` leaves to C08) taken out, exactly the order in which `lstep` enables the
+    closer's steps after `closeCall` (`cHubDel`, `cNotify`, `cCallWait`, `cStore`, `cSock`, `cHook`).
+    `readDisconnected` likewise: load, compare-and-swap to PassiveClosing, `sessHub.delete(id, s)`,
+    [context wait, cancel loop], `socket.Close`, [redial attempt], store PassiveClosed, `notifyClosed`,
+    `postDisconnect` = the reader's `dLoad … dHook`; the last three under the failed-redial guard; and
+    the early return for a session that `Close()` is closing sits after the hub delete and before
+    the socket close, where the model's `dHubDel` ends the reader for `rst = ActiveClosing`. Every hub
+    delete in the package is the two-argument owner form. Reordering two of these statements,
+    dropping one or adding another lifecycle operation to either path changes the regenerated
+    flow and this theorem no longer checks. -/
+theorem C07_close_path_order :
+    Gen.transitions_missing = [] ∧
+    without abstracted (lifeKeys Gen.flow_session_closeLocked) = ("cas:" ++ casName .activeClosing closeFrom) :: modelCloser ∧
+    -- with the wait for the handler contexts at its place: right after `notifyClosed`, before the call wait
+    lifeKeys Gen.flow_session_closeLocked = ("cas:" ++ casName .activeClosing closeFrom) ::
+      (modelCloser.flatMap fun k => if k == "call:notifyClosed" then [k, "wg:ctx.Wait"] else [k]) ∧
+    modelCloser.length = 6 ∧
+    ((mainFlow Gen.flow_session_closeLocked).filter fun e => e.kind != "return").all (fun e => e.guards.isEmpty) = true ∧
+    without abstracted (lifeKeys Gen.flow_session_readDisconnected) = modelReader .ok ∧
+    (modelReader .ok).length = 7 ∧
+    ((upto isAcReturn (mainFlow Gen.flow_session_readDisconnected)).map fun l => without abstracted (lifeKeys l)) =
+      some (modelReader .activeClosing) ∧
+    (modelReader .activeClosing).length = 3 ∧
+    ((after (fun e => e.is "call" "redialForClient") (mainFlow Gen.flow_session_readDisconnected)).map fun l =>
+      l.map fun e => (e.key, e.guards)) =
+      some [("store:statusPassiveClosed", ["!$.redialForClient(%)"]), ("call:notifyClosed", ["!$.redialForClient(%)"]),
+            ("stage:postDisconnect", ["!$.redialForClient(%)"])] ∧
+    (Gen.lifecycle_sites.filter fun r => r.2.1 == "call" && r.2.2.1 == "sessHub.delete").all (fun r => r.2.2.2 == "argc=2") = true ∧
+    sameSet ((Gen.lifecycle_sites.filter fun r => r.2.2.1 == "notifyClosed" || r.2.2.1 == "postDisconnect" || r.2.2.1 == "socket.Close").map
+        fun r => (r.1, r.2.2.1))
+      [("session.closeLocked", "notifyClosed"), ("session.closeLocked", "postDisconnect"), ("session.closeLocked", "socket.Close"),
+       ("session.readDisconnected", "notifyClosed"), ("session.readDisconnected", "postDisconnect"),
+       ("session.readDisconnected", "socket.Close")] = true := by
+  decide
+
+/-- non-vacuity: the model's closer order, spelled out. -/
+example : modelCloser = ["call:sessHub.delete", "call:notifyClosed", "wg:call.Wait", "store:statusActiveClosed",
+    "call:socket.Close", "stage:postDisconnect"] := by decide
+example : modelReader .ok = ["load:getStatus", "cas:statusPassiveClosing<-status", "call:sessHub.delete", "call:socket.Close",
+    "store:statusPassiveClosed", "call:notifyClosed", "stage:postDisconnect"] := by decide
+
+def mtypes : List String := ["TypeCall", "TypeReply", "TypePush", "TypeAuthCall", "TypeAuthReply"]
+
+/-- **`write` refuses exactly where the model's `write` does; `goonRead` is the model's (tie A).**
+    The condition under which `session.write` returns the connection-closed sentinel — evaluated
+    by `srcfacts` for every status constant and every message type — is the refusal of
+    `Lifecycle.write`: it lets a message through iff the status is Ok, or ActiveClosing and the
+    message is a REPLY; in every other status (the closed ones in particular: fail fast) it returns
+    `statConnClosed` without touching the socket. That `if` comes after the status load and before
+    the write lock and `WriteMessage`. `goonRead` holds exactly in Ok and ActiveClosing. Letting
+    another status through, or another message type in ActiveClosing, changes the regenerated
+    table and this theorem no longer checks. -/
+theorem C07_fail_fast_condition :
+    Gen.transitions_missing = [] ∧
+    Gen.write_table = allStatus.flatMap (fun st => mtypes.map fun mt =>
+      (goName st, mt, decide (write st (mt == "TypeReply") false .fine = (.connClosed, false)))) ∧
+    (allStatus.all fun st => [true, false].all fun r =>
+      (write st r false .fine == (.connClosed, false)) || (write st r false .fine == (.ok, true))) = true ∧
+    Gen.goonRead_table = allStatus.map (fun st => (goName st, goonRead st)) ∧
+    ((keys Gen.flow_session_write).filter fun k => k == "load:getStatus" || k == "lock:writeLock.Lock" || k == "call:WriteMessage") =
+      ["load:getStatus", "lock:writeLock.Lock", "call:WriteMessage"] ∧
+    ((upto (fun e => e.is "lock" "writeLock.Lock") (mainFlow Gen.flow_session_write)).map fun l =>
+      (l.filter fun e => e.kind == "return").map fun e => e.x) = some ["%,statConnClosed"] ∧
+    ((Gen.status_sites.filter fun r => r.1 == "session.write").map fun r => (r.2.1, r.2.2.1)) =
+      [("cmp", "==statusActiveClosing"), ("cmp", "==statusOk"), ("load", "getStatus")] := by
+  decide
+
+end TieA
 
 end C07
 end Teleport
